@@ -43,6 +43,12 @@ theorem nest_equalRates : Pairs.equalRates.all (fun p => nestOK table sigs p.a p
 theorem nest_zeroSelection : Pairs.zeroSelection.all (fun p => nestOK table sigs p.a p.b p.args) = true := by decide +kernel
 theorem nest_equalSelection : Pairs.equalSelection.all (fun p => nestOK table sigs p.a p.b p.args) = true := by decide +kernel
 theorem nest_composite : Pairs.composite.all (fun p => nestOK table sigs p.a p.b p.args) = true := by decide +kernel
+theorem nest_branch :
+    Pairs.branch.all (fun p => nestOKAt table sigs p.a p.argsA p.path p.b p.argsB) = true := by decide +kernel
+theorem table_wiring :
+    table.all (fun m => match symbolicRun table sigs m.name (m.paramNames.map .param) with
+                        | some t => wiringOK (integrators sigs) t
+                        | none => false) = true := by decide +kernel
 theorem swap_symmetric : Pairs.symmetric.all (fun p => swapOK table sigs swapRules12 p.name p.args) = true := by
   decide +kernel
 end C15Facts
@@ -124,6 +130,40 @@ theorem C15_nesting_equal_selection : NestsIn Pairs.equalSelection := nestsIn_of
 /-- combinations, and the `_size` models with the same sizes in both epochs (18 pairs) -/
 theorem C15_nesting_composite : NestsIn Pairs.composite := nestsIn_of_all C15Facts.nest_composite
 
+/-- **one branch of a model with an `if`**: for the five pairs of `Pairs.branch` (the models with `if T >= Ts`, at `T = 0`, in
+    the `else` branch "split before the size change"), whenever the comparisons along the path come out as stated
+    (`0 >= Ts` is false, i.e. `Ts > 0`), the model means what the plain split model means — in particular with two *different*
+    selection coefficients.  The tree-equal delegation pairs cannot see a slip inside one branch; these can. -/
+theorem C15_nesting_branch (p : Pairs.BranchPair) (hp : p ∈ Pairs.branch)
+    (I : Interp) (hI : Lawful I (integrators sigs)) (ρ : Name → I.S) :
+    ∃ ta, normalForm table sigs p.a p.argsA = some ta ∧
+      (PathHolds I ρ p.path ta → sem I ρ table sigs p.a p.argsA = sem I ρ table sigs p.b p.argsB) :=
+  nestOKAt_sound hI ρ (List.all_eq_true.mp C15Facts.nest_branch p hp)
+
+/-- the comparison that selects the branch is, in every one of these pairs, `0 >= Ts` with outcome `false` -/
+theorem C15_nesting_branch_conditions :
+    Pairs.branch.all (fun p => match normalForm table sigs p.a p.argsA with
+      | some t => pathConds p.path t == [(⟨nm! ">=", .lit 0 1, .param (nm! "Ts")⟩, false)]
+      | none => false) = true := by
+  decide +kernel
+
+/-- **argument wiring, every branch of every model**: in every integrator call, a keyword with a population index
+    (`nu1`, `m21`, `gamma2`, …) that receives a bare model parameter of the same family with an index of the same length
+    receives the one with the *same* index (`gamma2=gamma2`, `nu1=nu1a`, `m12=m12b`).  A copy-paste slip such as
+    `gamma2=gamma1` in one branch of one model falsifies this statement. -/
+theorem C15_wiring :
+    table.all (fun m => match symbolicRun table sigs m.name (m.paramNames.map .param) with
+                        | some t => wiringOK (integrators sigs) t
+                        | none => false) = true :=
+  C15Facts.table_wiring
+
+/-- the wiring rule is not vacuous: it refuses `gamma2=gamma1` and `m12=m21`, accepts `gamma2=gamma2`, `nu1=nu1a`, and does
+    not judge `m12=m1`, `gamma=gamma1` -/
+example : wiredOK (nm! "gamma2") (.param (nm! "gamma1")) = false ∧ wiredOK (nm! "m12") (.param (nm! "m21")) = false
+    ∧ wiredOK (nm! "gamma2") (.param (nm! "gamma2")) = true ∧ wiredOK (nm! "nu1") (.param (nm! "nu1a")) = true
+    ∧ wiredOK (nm! "m12") (.param (nm! "m1")) = true ∧ wiredOK (nm! "gamma") (.param (nm! "gamma1")) = true := by
+  decide +kernel
+
 /-- the groups are not empty -/
 theorem C15_nesting_counts :
     (Pairs.nesting.map fun g => (g.1, g.2.length))
@@ -172,6 +212,7 @@ theorem C15_swap_syntactic (p : Pairs.SwapPair) (hp : p ∈ Pairs.symmetric)
 theorem traceInterp_lawful : Lawful traceInterp (integrators sigs) where
   mul_one_left x := by show ((1 : Nat) : Int) * x = x; simp
   mul_one_right x := by show x * ((1 : Nat) : Int) = x; simp
+  sub_zero x := by show x - ((0 : Nat) : Int) = x; simp
   zero_duration fn hfn φ args hT h0 := by
     show (match args.lookup (nm! "T"), args.lookup (nm! "initial_t") with
           | some (.scalar t), some (.scalar t0) =>
